@@ -43,7 +43,7 @@ Print Assumptions decode_order.
 
 (* --- the raw value is exactly the payload bits the signal occupies *)
 Theorem decode_le_spec : forall size s data,
-  sig_ok size s -> s_be s = false -> bytes_ok data ->
+  sig_ok size s -> narrow s -> s_be s = false -> bytes_ok data ->
   sig_raw s data = raw_le (s_start s) (s_size s) data.
 Proof. exact Proofs.decode_le_spec. Qed.
 Print Assumptions decode_le_spec.
@@ -51,7 +51,7 @@ Print Assumptions decode_le_spec.
 (* big endian, under the narrowest hypothesis excluding the open finding D08 (big-endian, fits in
    one byte, asymmetric placement) *)
 Theorem decode_be_spec : forall size s data,
-  sig_ok size s -> s_be s = true -> d08 s = false -> bytes_ok data -> size <= nbits data ->
+  sig_ok size s -> narrow s -> s_be s = true -> d08 s = false -> bytes_ok data -> size <= nbits data ->
   sig_raw s data = raw_be (s_start s) (s_size s) data.
 Proof. exact Proofs.decode_be_spec. Qed.
 Print Assumptions decode_be_spec.
@@ -140,35 +140,72 @@ Print Assumptions cache_stale_after_resize_of_signal.
 (* --- composition with C01 (Acme.C01 / Acme.C07, imported read-only): the premise `wf` of the
        theorems above holds for every message layout of every state reachable by C01's 27 payload
        operations under C01's hypotheses ok_hist_w (which exclude C01's open findings D03, D20, D35,
-       D36), for signals of at most 64 bits; byte order and kinds are arbitrary parameters *)
+       D36); the 64-bit bound (`narrow`) is asked of the decoded signals only, a multiplexer may be
+       wider; byte order and kinds are arbitrary parameters here *)
 Theorem layout_wf_reachable : forall ops m be kind,
   Acme.C07.Proofs.ok_hist_w ops ->
-  Forall (fun x => Acme.C01.Model.sz (Acme.C01.Model.run ops) x <= 64) (Acme.C01.State.glay (Acme.C01.Model.run ops) m) ->
   wf (8 * Acme.C01.State.gbytes (Acme.C01.Model.run ops) m) (c02_layout be kind (Acme.C01.Model.run ops) m).
 Proof. exact ComposeC01.layout_wf_reachable. Qed.
 Print Assumptions layout_wf_reachable.
 
 Theorem decode_reachable : forall ops m be kind data,
   Acme.C07.Proofs.ok_hist_w ops ->
-  Forall (fun x => Acme.C01.Model.sz (Acme.C01.Model.run ops) x <= 64) (Acme.C01.State.glay (Acme.C01.Model.run ops) m) ->
   bytes_ok data -> 8 * Acme.C01.State.gbytes (Acme.C01.Model.run ops) m <= nbits data ->
   let l := c02_layout be kind (Acme.C01.Model.run ops) m in
   decode l data = map (fun s => (s_id s, sig_raw s data)) (filter not_mux l) /\
-  (forall s, In s l -> be = false -> sig_raw s data = raw_le (s_start s) (s_size s) data) /\
-  (forall s, In s l -> be = true -> d08 s = false -> sig_raw s data = raw_be (s_start s) (s_size s) data) /\
-  (forall s, In s l -> be = true -> one_byte s = true -> sig_raw s data = raw_le (s_start s) (s_size s) data).
+  (forall s, In s l -> narrow s -> be = false -> sig_raw s data = raw_le (s_start s) (s_size s) data) /\
+  (forall s, In s l -> narrow s -> be = true -> d08 s = false -> sig_raw s data = raw_be (s_start s) (s_size s) data) /\
+  (forall s, In s l -> be = true -> one_byte s = true -> sig_raw s data = raw_le (s_start s) (s_size s) data) /\
+  (forall s, In s l -> narrow s -> 0 <= sig_raw s data < 2 ^ s_size s) /\
+  (forall f, In f (gen_filters l) -> 0 <= f_byte f < Acme.C01.State.gbytes (Acme.C01.Model.run ops) m).
 Proof. exact ComposeC01.decode_reachable. Qed.
 Print Assumptions decode_reachable.
 
 Theorem masks_reachable : forall ops m be kind,
   Acme.C07.Proofs.ok_hist_w ops ->
-  Forall (fun x => Acme.C01.Model.sz (Acme.C01.Model.run ops) x <= 64) (Acme.C01.State.glay (Acme.C01.Model.run ops) m) ->
   let l := c02_layout be kind (Acme.C01.Model.run ops) m in
   (forall s, In s l -> fold_right (fun f a => popcount8 (f_mask f) + a) 0 (sig_filters s) = s_size s) /\
   (forall a b f g, In a l -> In b l -> s_id a <> s_id b -> d08 a = false -> d08 b = false ->
      In f (sig_filters a) -> In g (sig_filters b) -> f_byte f = f_byte g -> Z.land (f_mask f) (f_mask g) = 0).
 Proof. exact ComposeC01.masks_reachable. Qed.
 Print Assumptions masks_reachable.
+
+(* --- ONE machine for geometry edits and byte-order changes: C01's alphabet contains OByteOrder
+       (Message.SetByteOrder).  layout_after ops m = the layout of message m after the history, in the
+       byte order set by the last OByteOrder on m (little endian before), kinds read from the state.
+       For every interleaving of the 28 operations satisfying ok_hist_w: *)
+Theorem history_decode : forall ops m data,
+  Acme.C07.Proofs.ok_hist_w ops ->
+  bytes_ok data -> 8 * Acme.C01.State.gbytes (Acme.C01.Model.run ops) m <= nbits data ->
+  let l := layout_after ops m in
+  let be := be_after ops m in
+  wf (8 * Acme.C01.State.gbytes (Acme.C01.Model.run ops) m) l /\ uniform be l /\
+  decode l data = map (fun s => (s_id s, sig_raw s data)) (filter not_mux l) /\
+  (forall s, In s l -> narrow s -> d08 s = false ->
+     sig_raw s data = if be then raw_be (s_start s) (s_size s) data else raw_le (s_start s) (s_size s) data) /\
+  (forall s, In s l -> narrow s -> 0 <= sig_raw s data < 2 ^ s_size s).
+Proof. exact ComposeC01.history_decode. Qed.
+Print Assumptions history_decode.
+
+(* every mask lies inside the payload: of one signal, of a layout, after a history *)
+Theorem filters_inside : forall size s f, sig_ok size s -> In f (sig_filters s) ->
+  0 <= f_byte f /\ 8 * f_byte f < size.
+Proof. exact Proofs.filters_inside. Qed.
+Print Assumptions filters_inside.
+
+Theorem filters_inside_history : forall ops m f,
+  Acme.C07.Proofs.ok_hist_w ops -> In f (gen_filters (layout_after ops m)) ->
+  0 <= f_byte f < Acme.C01.State.gbytes (Acme.C01.Model.run ops) m.
+Proof. exact ComposeC01.filters_inside_history. Qed.
+Print Assumptions filters_inside_history.
+
+(* the raw value of a signal of at most 64 bits has exactly that many bits: it is the `raw` the C03
+   decoding theorems take *)
+Theorem sig_raw_range : forall size s data,
+  sig_ok size s -> narrow s -> bytes_ok data -> size <= nbits data ->
+  0 <= sig_raw s data < 2 ^ s_size s.
+Proof. exact Proofs.sig_raw_range. Qed.
+Print Assumptions sig_raw_range.
 
 (* --- hypothesis made explicit: byte_order_propagates is about ONE message, i.e. signals that are
        placed in at most one message.  Go also accepts a signal that already sits in another message
